@@ -29,12 +29,12 @@ type Query { q(f: Renamed, from: String): Int }
 QUERIES_NAMES = "query Names($f: Renamed, $from: String) { q(f: $f, from: $from) }"
 
 
-def _call(g, method, **kw):
+def _call(g, method, _data=None, **kw):
     sent = []
 
     def handler(request):
         sent.append(json.loads(request.content))
-        return httpx.Response(200, json={"data": {"q": 1}})
+        return httpx.Response(200, json={"data": _data or {"q": 1}})
     mod = g.module("client")
     client = mod.Client(url="http://x/graphql", http_client=httpx.AsyncClient(transport=httpx.MockTransport(handler)))
     asyncio.run(getattr(client, method)(**kw))
@@ -138,9 +138,48 @@ def run_cases():
     finally:
         if g is not None:
             g.cleanup()
+    # type extensions are part of the schema: extended input fields (required / with default) and enum values
+    g = None
+    try:
+        g = generate_client(SCHEMA_EXT, QUERIES_EXT)
+        schema = G.build_schema(SCHEMA_EXT)
+        it, en = g.module("input_types"), g.module("enums")
+        try:
+            payload = _call(g, "ext", _data={"q": 1, "p": 2}, f=it.Filter(must=1, color=en.Color.BLUE), c=en.Color.BLUE)
+            got = _coerced(schema, payload)
+            expect = {"f": {"must": 1, "color": "BLUE", "extra": "dflt"}, "c": "BLUE"}
+            if got != expect:
+                rep["outcome"]["extended-types"] = {"sent": payload.get("variables"), "coerced": got, "expected": expect}
+                rep["cases"].append("extended-types")
+        except Exception as e:   # noqa
+            rep["outcome"]["extended-types"] = f"{type(e).__name__}: {str(e)[:200]}"
+            rep["cases"].append("extended-types")
+        try:
+            it.Filter(color=en.Color.RED)
+            rep["outcome"]["extended-required-field-enforced"] = "a Filter without the required extension field `must` was accepted"
+            rep["cases"].append("extended-required-field-enforced")
+        except Exception:   # noqa  (pydantic ValidationError / AttributeError on a missing enum member both mean: not accepted)
+            pass
+    except Exception as e:   # noqa
+        rep["outcome"]["generation-extended-types"] = f"{type(e).__name__}: {str(e)[:300]}"
+        rep["cases"].append("generation-extended-types")
+    finally:
+        if g is not None:
+            g.cleanup()
     if rep["cases"]:
         rep["failed"].append("bounded.variables")
     return rep
+
+
+SCHEMA_EXT = """
+enum Color { RED }
+input Filter { color: Color }
+type Query { q(f: Filter): Int }
+extend enum Color { BLUE }
+extend input Filter { must: Int! extra: String = "dflt" }
+extend type Query { p(c: Color): Int }
+"""
+QUERIES_EXT = "query Ext($f: Filter, $c: Color) { q(f: $f) p(c: $c) }"
 
 
 def bounded_variables(tier, seed):
